@@ -423,3 +423,47 @@ def skips_only_zero(body, guard_bb, bb, delta, unsigned):
     other = t_edge if skip_edge == f_edge else f_edge
     # bb is reached only over the non-zero edge
     return bb not in body.reach(skip_edge, avoid_blocks=[guard_bb]) and (bb == other or bb in body.reach(other, avoid_blocks=[guard_bb]))
+
+
+def const_eval(t, facts=None, bits=64):
+    """Value of a constant integer expression term (literals, crate constants with an evaluated value, shifts, +, -, &, |, ^, !, casts), modulo 2^bits; None if not constant."""
+    mask = (1 << bits) - 1
+    t = peel(t, transparent=["Into::into", "From::from"], refs=True) if isinstance(t, tuple) else t
+    if not (isinstance(t, tuple) and t):
+        return None
+    if t[0] in ("const", "constdef"):
+        v = const_int(t)
+        if v is None and t[0] == "constdef" and facts is not None:
+            c = facts.consts.get(t[1])
+            if c and "bits" in c:
+                v = int(c["bits"])
+        return None if v is None else v & mask
+    if t[0] == "cast":
+        return const_eval(t[2], facts, bits)
+    if t[0] == "field" and isinstance(t[1], tuple) and t[1] and t[1][0] == "binop" and t[1][1].endswith("WithOverflow") and str(t[2]) == "0":
+        return const_eval(("binop", t[1][1][:-len("WithOverflow")], t[1][2], t[1][3]), facts, bits)
+    if t[0] == "unop" and t[1] == "Not":
+        v = const_eval(t[2], facts, bits)
+        return None if v is None else (~v) & mask
+    if t[0] == "binop":
+        a, b_ = const_eval(t[2], facts, bits), const_eval(t[3], facts, bits)
+        if a is None or b_ is None:
+            return None
+        op = t[1]
+        if op in ("Shl", "ShlUnchecked"):
+            return (a << b_) & mask
+        if op in ("Shr", "ShrUnchecked"):
+            return a >> b_
+        if op in ("Add", "AddUnchecked"):
+            return (a + b_) & mask
+        if op in ("Sub", "SubUnchecked"):
+            return (a - b_) & mask
+        if op == "BitAnd":
+            return a & b_
+        if op == "BitOr":
+            return a | b_
+        if op == "BitXor":
+            return a ^ b_
+        if op == "Mul":
+            return (a * b_) & mask
+    return None
